@@ -1,20 +1,284 @@
-(** * LockProofs: proofs of the C07 statements about lock bits (to be filled). *)
+(** * LockProofs: proofs of the C07 statements about lock bits. *)
 From Ark Require Import Model.Base Model.Mask Model.Pool Proofs.LockSpec.
+From Coq Require Import Lia ZifyN ZifyNat ZifyBool.
+
+(** ** Helper lemmas: [upd] *)
+
+Lemma length_upd : forall A (l : list A) i x, length (upd i x l) = length l.
+Proof.
+  induction l; intros [|i] x; simpl; auto.
+Qed.
+
+Lemma nth_error_upd_eq : forall A (l : list A) i x,
+  i < length l -> nth_error (upd i x l) i = Some x.
+Proof.
+  induction l; intros [|i] x H; simpl in *; try lia; auto.
+  apply IHl; lia.
+Qed.
+
+Lemma nth_error_upd_neq : forall A (l : list A) i j x,
+  i <> j -> nth_error (upd i x l) j = nth_error l j.
+Proof.
+  induction l; intros [|i] [|j] x H; simpl; auto; try congruence.
+Qed.
+
+(** ** Helper lemmas: [remove_nat] *)
+
+Lemma in_remove_nat : forall b l x, In x (remove_nat b l) <-> In x l /\ x <> b.
+Proof.
+  intros b l x. unfold remove_nat. rewrite filter_In.
+  rewrite negb_true_iff, Nat.eqb_neq. tauto.
+Qed.
+
+Lemma remove_nat_notin : forall b l, ~ In b l -> remove_nat b l = l.
+Proof.
+  induction l; simpl; intros H; auto.
+  destruct (Nat.eqb a b) eqn:E; simpl.
+  - apply Nat.eqb_eq in E. tauto.
+  - f_equal. apply IHl. tauto.
+Qed.
+
+Lemma length_remove_nat : forall b l,
+  NoDup l -> In b l -> S (length (remove_nat b l)) = length l.
+Proof.
+  induction l; simpl; intros Hnd Hin; [tauto|].
+  inversion Hnd; subst.
+  destruct (Nat.eqb a b) eqn:E; simpl.
+  - apply Nat.eqb_eq in E; subst. rewrite remove_nat_notin; auto.
+  - apply Nat.eqb_neq in E. destruct Hin; [congruence|].
+    f_equal. apply IHl; auto.
+Qed.
+
+Lemma NoDup_remove_nat : forall b l, NoDup l -> NoDup (remove_nat b l).
+Proof.
+  intros b l H. induction H; simpl.
+  - constructor.
+  - destruct (Nat.eqb x b); simpl; auto.
+    constructor; auto. rewrite in_remove_nat. tauto.
+Qed.
+
+(** ** Helper lemmas: mask bits *)
+
+Lemma mk_get_set : forall m b x,
+  mk_get (mk_set m b) x = true <-> x = b \/ mk_get m x = true.
+Proof.
+  intros. unfold mk_get, mk_set. rewrite N.setbit_eqb, orb_true_iff, N.eqb_eq.
+  split; intros [H|H]; auto.
+  left. symmetry. apply Nat2N.inj; auto.
+Qed.
+
+Lemma mk_get_clear : forall m b x,
+  mk_get (mk_clear m b) x = true <-> x <> b /\ mk_get m x = true.
+Proof.
+  intros. unfold mk_get, mk_clear.
+  rewrite N.clearbit_eqb, andb_true_iff, negb_true_iff, N.eqb_neq.
+  split; intros [H1 H2]; split; try assumption; intros H.
+  - apply H2. subst; reflexivity.
+  - apply Nat2N.inj in H. congruence.
+Qed.
+
+(** ** The free list chained through the pool slots *)
+
+Fixpoint chain (l : list nat) (nx : nat) (fl : list nat) : Prop :=
+  match fl with
+  | [] => True
+  | a :: rest => nx = a /\ exists c, nth_error l a = Some c /\ chain l c rest
+  end.
+
+Lemma chain_upd : forall l i x fl nx,
+  ~ In i fl -> chain l nx fl -> chain (upd i x l) nx fl.
+Proof.
+  induction fl as [|a rest IH]; simpl; intros nx Hni H; auto.
+  destruct H as (-> & c & Hc & Hch). split; auto.
+  exists c. split.
+  - rewrite nth_error_upd_neq; auto.
+  - apply IH; auto.
+Qed.
+
+Lemma chain_app : forall l y fl nx, chain l nx fl -> chain (l ++ [y]) nx fl.
+Proof.
+  induction fl as [|a rest IH]; simpl; intros nx H; auto.
+  destruct H as (-> & c & Hc & Hch). split; auto.
+  exists c. split; auto.
+  rewrite nth_error_app1; auto. apply nth_error_Some. congruence.
+Qed.
+
+(** ** The invariant *)
+
+Definition Inv' (ipl : list nat) (nx av : nat) (m : mask) (held : list nat) : Prop :=
+  exists fl,
+    length ipl <= 64 /\
+    length fl = av /\
+    NoDup fl /\ NoDup held /\
+    (forall b, In b fl -> ~ In b held) /\
+    (forall b, In b fl \/ In b held -> b < length ipl) /\
+    length held + length fl = length ipl /\
+    chain ipl nx fl /\
+    (forall b, mk_get m b = true <-> In b held).
+
+Definition Inv (g : lghost) : Prop :=
+  let p := lk_pool (lg_lock g) in
+  Inv' (ip p) (inext p) (iavail p) (lk_mask (lg_lock g)) (lg_held g).
+
+Lemma Inv_init : Inv lghost0.
+Proof.
+  unfold Inv, Inv'; simpl. exists []. simpl.
+  repeat split; auto; try constructor; try lia; try tauto.
+  all: unfold mk_get; rewrite N.bits_0; discriminate.
+Qed.
+
+(** What [lock_lock] does in a state satisfying the invariant. *)
+Lemma lock_lock_spec : forall ipl nx av m held,
+  Inv' ipl nx av m held ->
+  match lock_lock {| lk_pool := {| ip := ipl; inext := nx; iavail := av |}; lk_mask := m |} with
+  | Some (b, l') =>
+      ~ In b held /\ b < 64 /\ length held < 64 /\
+      Inv' (ip (lk_pool l')) (inext (lk_pool l')) (iavail (lk_pool l')) (lk_mask l') (b :: held)
+  | None => length held = 64
+  end.
+Proof.
+  intros ipl nx av m held (fl & Hlen & Hav & Hndf & Hndh & Hdis & Hlt & Hcnt & Hch & Hm).
+  unfold lock_lock, ipool_get.
+  cbn [lk_pool lk_mask ip inext iavail].
+  destruct (Nat.eqb av 0) eqn:E.
+  - apply Nat.eqb_eq in E. subst av.
+    destruct fl; [|discriminate]. simpl in Hcnt.
+    destruct (Nat.leb 64 (length ipl)) eqn:E2.
+    + apply Nat.leb_le in E2. lia.
+    + apply Nat.leb_gt in E2.
+      cbn [lk_pool lk_mask ip inext iavail].
+      assert (Hni : ~ In (length ipl) held).
+      { intros H. specialize (Hlt (length ipl) (or_intror H)). lia. }
+      repeat split; auto; try lia.
+      exists []. rewrite app_length. simpl.
+      repeat split; auto; try lia; try tauto.
+      * constructor; auto.
+      * intros b [H|[H|H]]; [tauto|lia|].
+        specialize (Hlt b (or_intror H)). lia.
+      * intros H. apply mk_get_set in H. destruct H; [auto|right; apply Hm; auto].
+      * intros [H|H]; apply mk_get_set; [auto|right; apply Hm; auto].
+  - apply Nat.eqb_neq in E.
+    destruct fl as [|a rest]; [simpl in Hav; congruence|].
+    simpl in Hch. destruct Hch as (-> & c & Hc & Hch). rewrite Hc.
+    cbn [lk_pool lk_mask ip inext iavail].
+    inversion Hndf as [|? ? Hna Hndr]; subst.
+    assert (Hah : ~ In a held) by (apply Hdis; left; auto).
+    assert (Halt : a < length ipl) by (apply Hlt; left; left; auto).
+    simpl in Hcnt.
+    repeat split; auto; try lia.
+    exists rest. rewrite length_upd.
+    repeat split; auto; try lia.
+    + simpl. lia.
+    + constructor; auto.
+    + intros b Hb [H|H]; [subst; tauto|]. apply (Hdis b); auto. right; auto.
+    + intros b [H|[H|H]]; [|subst; auto|]; apply Hlt; [left; right|right]; auto.
+    + simpl. lia.
+    + apply chain_upd; auto.
+    + intros H. apply mk_get_set in H. destruct H; [left; auto|right; apply Hm; auto].
+    + intros [H|H]; apply mk_get_set; [auto|right; apply Hm; auto].
+Qed.
+
+(** What [lock_unlock] does in a state satisfying the invariant. *)
+Lemma lock_unlock_spec : forall ipl nx av m held b,
+  Inv' ipl nx av m held ->
+  match lock_unlock {| lk_pool := {| ip := ipl; inext := nx; iavail := av |}; lk_mask := m |} b with
+  | Some l' =>
+      In b held /\
+      Inv' (ip (lk_pool l')) (inext (lk_pool l')) (iavail (lk_pool l')) (lk_mask l')
+           (remove_nat b held)
+  | None => ~ In b held
+  end.
+Proof.
+  intros ipl nx av m held b (fl & Hlen & Hav & Hndf & Hndh & Hdis & Hlt & Hcnt & Hch & Hm).
+  unfold lock_unlock, ipool_recycle.
+  cbn [lk_pool lk_mask ip inext iavail].
+  destruct (mk_get m b) eqn:E.
+  - cbn [lk_pool lk_mask ip inext iavail].
+    assert (Hb : In b held) by (apply Hm; auto).
+    split; auto.
+    assert (Hbf : ~ In b fl) by (intros H; apply (Hdis b); auto).
+    assert (Hblt : b < length ipl) by (apply Hlt; auto).
+    exists (b :: fl). rewrite length_upd.
+    repeat split; auto.
+    + simpl. lia.
+    + constructor; auto.
+    + apply NoDup_remove_nat; auto.
+    + intros x [H|H] H2; apply in_remove_nat in H2; destruct H2 as [H2 H3].
+      * congruence.
+      * apply (Hdis x); auto.
+    + intros x [[H|H]|H].
+      * subst; auto.
+      * apply Hlt; auto.
+      * apply in_remove_nat in H. apply Hlt; tauto.
+    + pose proof (length_remove_nat _ _ Hndh Hb). simpl. lia.
+    + exists nx. split.
+      * apply nth_error_upd_eq; auto.
+      * apply chain_upd; auto.
+    + intros H. apply mk_get_clear in H. apply in_remove_nat. rewrite <- Hm. tauto.
+    + intros H. apply in_remove_nat in H. apply mk_get_clear. rewrite Hm. tauto.
+  - intros H. apply Hm in H. congruence.
+Qed.
+
+Lemma Inv_step : forall g o, Inv g -> Inv (lstep g o).
+Proof.
+  intros [[[ipl nx av] m] held errs] o. unfold Inv.
+  cbn [lg_lock lg_held lk_pool lk_mask ip inext iavail]. intros HI.
+  destruct o as [|b]; unfold lstep; cbn [lg_lock lg_held lg_errs].
+  - pose proof (lock_lock_spec _ _ _ _ _ HI) as H.
+    destruct (lock_lock _) as [[b l']|].
+    + cbn [lg_lock lg_held]. tauto.
+    + cbn [lg_lock lg_held lk_pool lk_mask ip inext iavail]. auto.
+  - pose proof (lock_unlock_spec _ _ _ _ _ b HI) as H.
+    destruct (lock_unlock _ _) as [l'|].
+    + cbn [lg_lock lg_held]. tauto.
+    + cbn [lg_lock lg_held lk_pool lk_mask ip inext iavail]. auto.
+Qed.
+
+Lemma Inv_run : forall ops, Inv (lrun ops).
+Proof.
+  unfold lrun. induction ops as [|o ops IH] using rev_ind; simpl.
+  - apply Inv_init.
+  - rewrite fold_left_app. simpl. apply Inv_step; auto.
+Qed.
+
+(** ** The C07 statements *)
 
 (** The mask holds exactly the held bits; held bits are distinct and below 64. *)
 Theorem lock_mask_exact :
   forall ops b, let g := lrun ops in
   mk_get (lk_mask (lg_lock g)) b = true <-> In b (lg_held g).
-Admitted.
+Proof.
+  intros ops b g.
+  destruct (Inv_run ops) as (fl & Hlen & Hav & Hndf & Hndh & Hdis & Hlt & Hcnt & Hch & Hm).
+  apply Hm.
+Qed.
 
 Theorem lock_held_nodup :
   forall ops, let g := lrun ops in NoDup (lg_held g) /\ (forall b, In b (lg_held g) -> b < 64).
-Admitted.
+Proof.
+  intros ops g.
+  destruct (Inv_run ops) as (fl & Hlen & Hav & Hndf & Hndh & Hdis & Hlt & Hcnt & Hch & Hm).
+  split; auto.
+  intros b Hb. subst g. cbv zeta in *. specialize (Hlt b (or_intror Hb)). lia.
+Qed.
 
 (** IsLocked iff some bit is held. *)
 Theorem lock_is_locked_iff :
   forall ops, let g := lrun ops in lock_is_locked (lg_lock g) = true <-> lg_held g <> [].
-Admitted.
+Proof.
+  intros ops g.
+  pose proof (lock_mask_exact ops) as Hm. cbv zeta in Hm. fold g in Hm.
+  unfold lock_is_locked, mk_is_zero. rewrite negb_true_iff, N.eqb_neq.
+  split; intros H.
+  - intros Hnil. apply H. apply N.bits_inj_iff. intros n.
+    rewrite N.bits_0.
+    destruct (N.testbit (lk_mask (lg_lock g)) n) eqn:E; auto.
+    rewrite <- (N2Nat.id n) in E.
+    apply (Hm (N.to_nat n)) in E. rewrite Hnil in E. destruct E.
+  - intros H0. destruct (lg_held g) as [|b t] eqn:Eh; [congruence|].
+    assert (Hb : mk_get (lk_mask (lg_lock g)) b = true) by (apply Hm; left; auto).
+    unfold mk_get in Hb. rewrite H0, N.bits_0 in Hb. discriminate.
+Qed.
 
 (** Lock succeeds with a bit that was not held, unless all 64 are held, in which case it fails. *)
 Theorem lock_lock_fresh :
@@ -23,7 +287,14 @@ Theorem lock_lock_fresh :
   | Some (b, _) => ~ In b (lg_held g) /\ b < 64 /\ length (lg_held g) < 64
   | None => length (lg_held g) = 64
   end.
-Admitted.
+Proof.
+  intros ops g.
+  pose proof (Inv_run ops) as HI. fold g in HI.
+  destruct g as [[[ipl nx av] m] held errs]. unfold Inv in HI.
+  cbn [lg_lock lg_held lk_pool lk_mask ip inext iavail] in *.
+  pose proof (lock_lock_spec _ _ _ _ _ HI) as H.
+  destruct (lock_lock _) as [[b l']|]; tauto.
+Qed.
 
 (** Unlock of a bit that is not held is rejected (and [lstep] leaves the lock unchanged);
     unlock of a held bit succeeds. *)
@@ -31,4 +302,17 @@ Theorem lock_unlock_balanced :
   forall ops b, let g := lrun ops in
   (In b (lg_held g) -> lock_unlock (lg_lock g) b <> None) /\
   (~ In b (lg_held g) -> lock_unlock (lg_lock g) b = None).
-Admitted.
+Proof.
+  intros ops b g.
+  pose proof (lock_mask_exact ops b) as Hm. cbv zeta in Hm. fold g in Hm.
+  unfold lock_unlock.
+  destruct (mk_get (lk_mask (lg_lock g)) b) eqn:E.
+  - split; [discriminate|]. intros H. exfalso. apply H, Hm; auto.
+  - split; auto. intros H. apply Hm in H. congruence.
+Qed.
+
+Print Assumptions lock_mask_exact.
+Print Assumptions lock_held_nodup.
+Print Assumptions lock_is_locked_iff.
+Print Assumptions lock_lock_fresh.
+Print Assumptions lock_unlock_balanced.
